@@ -812,6 +812,13 @@ def run_impl(case):
             res["rerun"] = json_roundtrip({"orig": _rerun(root, how), "copy": loaded.rerun})
             stats["rerun"] = 1
     elif how and loaded is not None and not path and mid is None:
+        # a LIVE executor object is not state (the copy has none): run both again without it; executor
+        # INSTRUCTIONS are state and are used by both
+        from concurrent.futures import Executor
+
+        for n in _all_nodes(root):
+            if isinstance(n.executor, Executor):
+                n.executor = None
         if case.get("rerun_clear_fail"):
             nodes.FAIL.clear()
         if case.get("rerun_eq_cache"):
@@ -1341,7 +1348,7 @@ def _mk_case(rng, tier, mode):
     case = {"root": root, "state": state, "mode": mode,
             "backend": backend,
             "rounds": rng.choice([1, 1, 2]), "target": [], "fail": [], "has_executor": bool(opts.get("has_executor"))}
-    if backend == "file" and state not in ("midrun", "ctlmid") and not case.get("inplace") and rng.random() < (0.03 if tier == "quick" else 0.1):
+    if backend == "file" and state not in ("midrun", "ctlmid") and not case.get("inplace") and rng.random() < (0.03 if tier == "quick" else 0.04):
         # a restart: the file is read back by a NEW interpreter with another hash seed
         case["backend"] = "newproc"
         case["rounds"] = 1
@@ -1508,7 +1515,7 @@ def _hint_case(rng):
 
 
 def gen_cases(rng, tier):
-    n = 450 if tier == "quick" else 20000
+    n = 450 if tier == "quick" else 12000
     if tier == "thorough":
         yield from _exhaustive()
     for k in range(n):
